@@ -9,10 +9,53 @@ package vm
 //@   requires l != nil
 //@   ensures result == llen[l]
 
+// listHolds(t, pg, n): t's list is exactly pg[0..n) in order (each element a fresh, well-placed box of the page).
+//@ pred listHolds(t, pg, n) = llen[t.entries] == n && (forall k in 0..n :: elemAt(t, k) != nil && fresh(elemAt(t, k)) && elemAt(t, k) <= allocTop && lown[elemAt(t, k)] == t.entries && lpos[elemAt(t, k)] == k && hastype(elemAt(t, k).Value, "Page") && ifaceval(elemAt(t, k).Value) <= allocTop && pageOf(elemAt(t, k)) == pg[k])
+// mapPoints(t): every map entry points at an element of t's list that holds a page with that VAddr.
+//@ pred mapPoints(t) = forall v uint64 :: v in t.entriesTable ==> t.entriesTable[v] != nil && t.entriesTable[v] <= allocTop && lown[t.entriesTable[v]] == t.entries && 0 <= lpos[t.entriesTable[v]] && lpos[t.entriesTable[v]] < llen[t.entries] && lseq[t.entries][lpos[t.entriesTable[v]]] == t.entriesTable[v] && hastype(t.entriesTable[v].Value, "Page") && ifaceval(t.entriesTable[v].Value) <= allocTop && pageOf(t.entriesTable[v]).VAddr == v
+// mapCovers(t, pg, n): every page's VAddr is a key; it points at the LAST page with that VAddr (a later duplicate replaces the map entry, the list keeps both).
+//@ pred mapCovers(t, pg, n) = forall k in 0..n :: (pg[k].VAddr in t.entriesTable) && ((forall k2 in k + 1..n :: pg[k2].VAddr != pg[k].VAddr) ==> t.entriesTable[pg[k].VAddr] == elemAt(t, k))
+//@ pred tableShape(t) = t != nil && t.entries != nil && t.entriesTable != nil && fresh(t) && fresh(t.entries) && fresh(t.entriesTable) && t <= allocTop && t.entries <= allocTop && t.entriesTable <= allocTop
+//@ pred tableBuilt(t, pg, n) = tableShape(t) && listHolds(t, pg, n) && mapPoints(t) && mapCovers(t, pg, n)
+
+// builtUpTo(pt, tabs, src, n): pt.tables is what the first n entries of tabs build: its PIDs are exactly theirs, and the
+// table of PID p is built from the LAST entry with that PID (index src[p]; a later entry with the same PID replaces the table).
+//@ pred builtUpTo(pt, tabs, src, n) = (forall i in 0..n :: tabs[i].PID in pt.tables)
+//@   && (forall p uint32 :: p in pt.tables ==> 0 <= src[p] && src[p] < n && tabs[src[p]].PID == p && (forall i in src[p] + 1..n :: tabs[i].PID != p))
+//@   && (forall p uint32 :: p in pt.tables ==> tableShape(pt.tables[p]))
+//@   && (forall p uint32 :: p in pt.tables ==> listHolds(pt.tables[p], tabs[src[p]].Pages, len(tabs[src[p]].Pages)))
+//@   && (forall p uint32 :: p in pt.tables ==> mapPoints(pt.tables[p]))
+//@   && (forall p uint32 :: p in pt.tables ==> mapCovers(pt.tables[p], tabs[src[p]].Pages, len(tabs[src[p]].Pages)))
+//@   && tablesSep(pt)
+//@ pred oldLists() = forall k int :: k <= old(allocTop) ==> llen[k] == old(llen)[k] && lseq[k] == old(lseq)[k] && lown[k] == old(lown)[k] && lpos[k] == old(lpos)[k]
+//@ pred apartFrom(pt, table) = forall p uint32 :: p in pt.tables ==> pt.tables[p] != table && pt.tables[p].entries != table.entries && pt.tables[p].entriesTable != table.entriesTable
+
+// ckptSrc[p]: index of the checkpoint entry the table of PID p was built from (witness of LoadCheckpoint's postcondition).
+//@ ghost var ckptSrc map
+
+// dtoClean(tabs): what SaveCheckpoint writes for a well-formed page table (and what LoadCheckpoint needs to rebuild one):
+// inside one entry no two pages share a VAddr, and every page carries its entry's PID.
+//@ pred dtoClean(tabs) = forall i in 0..len(tabs) :: forall k in 0..len(tabs[i].Pages) :: tabs[i].Pages[k].PID == tabs[i].PID && (forall k2 in k + 1..len(tabs[i].Pages) :: tabs[i].Pages[k2].VAddr != tabs[i].Pages[k].VAddr)
+
+// LoadCheckpoint (dto = the decoded value, arbitrary: the archive is not trusted).
 //@ fn (*pageTableImpl).LoadCheckpoint
 //@   property C26 C07
 //@   requires pt.tables != nil
-//@   assigns pt.tables, llen, lseq, lown, lpos
+//@   label C26.load.mismatch
+//@   ensures dto.Log2PageSize != pt.log2PageSize ==> result != nil
+//@   label C26.load.error.unchanged
+//@   ensures result != nil ==> pt.tables == old(pt.tables) && llen == old(llen) && lseq == old(lseq) && lown == old(lown) && lpos == old(lpos)
+//@   label C26.load.shape
+//@   ensures result == nil ==> dto.Log2PageSize == pt.log2PageSize
+//@   label C26.load.fresh
+//@   ensures result == nil ==> pt.tables != nil && fresh(pt.tables)
+//@   label C26.load.tables
+//@   ensures result == nil ==> builtUpTo(pt, dto.Tables, ckptSrc, len(dto.Tables))
+//@   label C26.load.preexisting
+//@   ensures oldLists()
+//@   label C26.load.wf
+//@   ensures result == nil && dtoClean(dto.Tables) ==> tablesWF(pt)
+//@   assigns pt.tables, llen, lseq, lown, lpos, ckptSrc
 //@   loop 0: ghost llen = llen
 //@   loop 0: backedge llen = llen
 //@   loop 0: ghost lseq = lseq
@@ -29,6 +72,13 @@ package vm
 //@   loop 1: backedge lown = lown
 //@   loop 1: ghost lpos = lpos
 //@   loop 1: backedge lpos = lpos
-//@   loop 0: invariant -1 <= rangeindex && rangeindex < len(dto.Tables)
-//@   loop 1: invariant -1 <= rangeindex && rangeindex < len(entry.Pages) && table != nil && table.entries != nil && fresh(table) && table.entriesTable != nil && fresh(table.entriesTable)
-//@   loop 1: invariant llen[table.entries] <= 1
+//@   loop 0: ghost oi = -1
+//@   loop 0: backedge oi = oi + 1
+//@   loop 0: ghost ckptSrc = idperm
+//@   loop 0: backedge ckptSrc = upd(ckptSrc, entry.PID, oi + 1)
+//@   loop 0: invariant -1 <= rangeindex && rangeindex < len(dto.Tables) && oi == rangeindex
+//@   loop 0: invariant pt.tables != nil && fresh(pt.tables) && oldLists()
+//@   loop 0: invariant builtUpTo(pt, dto.Tables, ckptSrc, oi + 1)
+//@   loop 1: invariant -1 <= rangeindex && rangeindex < len(entry.Pages) && oldLists()
+//@   loop 1: invariant tableBuilt(table, entry.Pages, rangeindex + 1)
+//@   loop 1: invariant builtUpTo(pt, dto.Tables, ckptSrc, oi + 1) && apartFrom(pt, table)
